@@ -99,6 +99,35 @@ def impl_filter(a):
     return _guard(lambda: fn(a["s"]))
 
 
+def impl_filters_init(a):
+    def run():
+        c = GeneratorConfig()
+        cv = c.conventions
+        for nc, p in zip((cv.class_name, cv.field_name, cv.constant_name, cv.module_name, cv.package_name), a["prefixes"]):
+            nc.safe_prefix = p
+        _filters(c)
+        return True
+
+    try:
+        return ok(run())
+    except CodegenError:
+        return err("CodegenError")
+    except Exception as e:  # noqa: BLE001
+        return err("LEAK:" + type(e).__name__)
+
+
+def gen_filters_init(rng, tier):
+    pool = PREFIXES + ["_x", "-a", "é_a", "a é", "1_a", "__", "٣a", "a٣", "A1", " a", "z", "\n", "0", "-", ".", "a.b", "名"]
+    yield {"prefixes": ["type", "value", "value", "mod", "pkg"]}
+    for p in pool:
+        for k in range(5):
+            ps = ["type", "value", "value", "mod", "pkg"]
+            ps[k] = p
+            yield {"prefixes": ps}
+    for _ in range(200):
+        yield {"prefixes": [rng.choice(pool) for _ in range(5)]}
+
+
 def impl_clean_uri(a):
     return _guard(lambda: namespaces.clean_uri(a["s"]))
 
@@ -538,6 +567,9 @@ CORRS = [
     Corr("names.filter", gen_filter, impl_filter, nontrivial=lambda a, o: len(a["s"]) > 0,
          describe="Filters.class_name/field_name/constant_name/module_name/package_name, default config",
          classify=lambda a, o: a["kind"] + (":err" if "err" in o else "")),
+    Corr("names.filters_init", gen_filters_init, impl_filters_init,
+         describe="Filters(config): safe prefixes accepted / rejected with CodegenError",
+         classify=lambda a, o: "rejected" if "err" in o else "accepted"),
     Corr("names.clean_uri", gen_clean_uri, impl_clean_uri),
     Corr("names.is_identifier", gen_identifier, impl_is_identifier, nontrivial=lambda a, o: len(a["s"]) > 0,
          describe="spec: str.isidentifier", classify=lambda a, o: str(o.get("ok"))),
@@ -610,7 +642,8 @@ DOC_URI_IGNORE = ("www", "xsd", "wsdl")
 
 def ref_case(case, s):
     if case == "originalCase":
-        return re.sub(r"^[^a-zA-Z_]+", "", re.sub(r"\W", "", s))
+        kept = "".join(c for c in re.sub(r"\W", "", s) if ("_" + c).isidentifier())
+        return re.sub(r"^[^a-zA-Z_]+", "", kept)
     return own_case(case, s)
 
 
@@ -661,6 +694,12 @@ def ref_rename(spec):
             else:
                 k = j if b["tag"] in ("Attribute", "AnyAttribute") else i
                 names[k] = f"{names[k]}_{spec[k]['tag']}"
+            reserved = {own_slug(n) for m, n in enumerate(names) if m != k}
+            if own_slug(names[k]) in reserved:
+                idx = 1
+                while own_slug(f"{names[k]}_{idx}") in reserved:
+                    idx += 1
+                names[k] = f"{names[k]}_{idx}"
         elif len(g) > 1:
             for k in g[1:]:
                 reserved = {own_slug(n) for n in names}
@@ -715,7 +754,16 @@ def oracle_ident(a):
         if "kind" in a:
             io = impl_filter(a)
         else:
-            io = impl_safe_name(a)
+            # a user convention: through the generator's own entry (Filters(config)), which may
+            # reject the convention with its own error type
+            c = GeneratorConfig()
+            c.conventions.field_name.case = NameCase(a["case"])
+            c.conventions.field_name.safe_prefix = a["prefix"]
+            try:
+                f = _filters(c)
+            except CodegenError:
+                return None
+            io = _guard(lambda: f.field_name(s, "cls"))
     except Exception as e:  # noqa: BLE001
         return f"name filter raised {type(e).__name__}"
     what = a.get("kind") or f"safe_name[{a['case']},{a['prefix']!r}]"
@@ -724,8 +772,6 @@ def oracle_ident(a):
     out = io["ok"]
     if a.get("kind") == "package" and s == "":
         return None  # no package: legitimate
-    if "kind" not in a and not re.fullmatch(r"[A-Za-z]+", a["prefix"]):
-        return None  # a user prefix that is itself not a plain word: only "no arbitrary exception" is demanded
     parts = out.split(".") if a.get("kind") == "package" and s else [out]
     for p in parts:
         if not importable_name(p):
@@ -735,26 +781,7 @@ def oracle_ident(a):
 
 
 def covered_ident(a, msg):
-    s = a["s"]
-    case = a.get("case") or KIND_CONV[a["kind"]][0]
-    pfx = a.get("prefix") if "kind" not in a else KIND_CONV[a["kind"]][1]
-    if a.get("kind") == "module":
-        expected = ref_safe_name(ref_clean_uri(s), pfx, case)
-    elif a.get("kind") == "package":
-        parts = [ref_safe_name(p, pfx, case) for p in s.split(".")]
-        expected = None if None in parts else ".".join(parts)
-    else:
-        expected = ref_safe_name(s, pfx, case)
-    if "RecursionError" in msg:
-        # the documented algorithm does not terminate either, because of the prefix
-        return "C07-safe-prefix-recursion" if expected is None and not prefix_ok(pfx) else None
-    m = re.search(r"\) = '(.*)': '", msg)
-    if expected is None or not m or m.group(1) != expected:
-        return None  # not what the documented algorithm produces: a new defect
-    bad = [p for p in expected.split(".") if not importable_name(p)]
-    if case == "originalCase" and bad and all(nonxid_word_chars(p) for p in bad):
-        return "C07-original-case-non-xid"
-    return None
+    return None  # no listed finding concerns a single name any more
 
 
 def gen_oracle_ident(rng, tier):
@@ -819,17 +846,9 @@ def covered_fields(a, msg):
         return None  # the implementation no longer does what is documented: not a known finding
     if "both become field" not in msg:
         return None
-    groups = {}
-    for i, x in enumerate(spec):
-        groups.setdefault(own_slug(x["name"]) or "value", []).append(i)
-    changed = {i for g in groups.values() if len(g) == 2 and spec[g[0]]["tag"] != "Enumeration"
-               for i in g if ref_names[i] != spec[i]["name"]}
     ids = set()
     for i, j in _collisions(finals):
-        if i in changed or j in changed:
-            # the member renamed by preference now collides (never re-checked)
-            ids.add("C07-preference-rename-unchecked")
-        elif own_slug(ref_names[i]) != own_slug(ref_names[j]) or "" in (own_slug(ref_names[i]), own_slug(ref_names[j])):
+        if own_slug(ref_names[i]) != own_slug(ref_names[j]) or "" in (own_slug(ref_names[i]), own_slug(ref_names[j])):
             # different slugs (or the empty slug that is keyed as "value"): only safe_name's rewriting makes them equal
             ids.add("C07-safe-prefix-collision")
         else:
@@ -869,22 +888,7 @@ def oracle_classes(a):
 
 
 def covered_classes(a, msg):
-    m = re.match(r"classes #(\d+) .* and #(\d+) .* both end up as class", msg)
-    if not m:
-        return None
-    cs = a["classes"]
-    j, i = int(m.group(1)), int(m.group(2))
-    unique = a["style"] in ("single-package", "clusters") or len({c["location"] for c in cs}) == 1
-    key = lambda c: own_slug(c["qname"].split("}")[-1] if unique else c["qname"])  # noqa: E731
-    groups = {}
-    for k, c in enumerate(cs):
-        groups.setdefault(key(c), []).append(k)
-    for p, q in ((i, j), (j, i)):
-        g = groups[key(cs[p])]
-        if (len(g) == 2 and cs[p]["abstract"] and sum(cs[k]["abstract"] for k in g) == 1
-                and key(cs[q]) == key(cs[p]) + "abstract"):
-            return "C07-abstract-suffix-unchecked"
-    return None
+    return None  # no listed finding about RenameDuplicateClasses any more
 
 
 def gen_oracle_classes(rng, tier):
@@ -1242,21 +1246,7 @@ def _all_names(a):
 
 
 def covered_pipeline(a, msg):
-    import unicodedata
-
     names = _all_names(a)
-    if "raised ValueError: no such name" in msg:
-        for n in names:
-            if own_slug(n) == "" and any(unicodedata.name(c, None) is None for c in n):
-                return "C07-unnamed-char-valueerror"
-    if "raised IndexError" in msg and a["kind"] == "json" and "" in names:
-        return "C07-json-empty-key-indexerror"
-    if "is not valid Python: SyntaxError: invalid character" in msg and "originalCase" in (
-        a.get("opts", {}).get("field_case"), a.get("opts", {}).get("class_case")
-    ):
-        bad = [c for n in names for c in nonxid_word_chars(n)]
-        if any(c in msg for c in bad):
-            return "C07-original-case-non-xid"
     m = re.search(r"of (\[.*\]): members (\[.*\]) all become '([^']*)' \((\w+)\)", msg)
     if m:
         members = ast.literal_eval(m.group(1))
@@ -1264,12 +1254,6 @@ def covered_pipeline(a, msg):
         final = m.group(3)
         conv = m.group(4)
         pfx = "value"
-        count = lambda s: sum(1 for x in members if own_slug(x) == own_slug(s))  # noqa: E731
-        tags = ("Attribute", "Element", "Any", "AnyAttribute", "Extension", "Restriction")
-        for s0 in srcs:
-            if count(s0) == 2 and any(ref_safe_name(f"{s0}_{t}", pfx, conv) == final for t in tags):
-                # a two-member slug group, renamed by preference to name_Tag, never re-checked
-                return "C07-preference-rename-unchecked"
         # each colliding member under the name the handlers may have given it (numeric suffix of
         # rename_attributes_by_index): different slugs, yet the documented safe_name maps all to `final`
         def variants(s0):
@@ -1496,20 +1480,6 @@ CORRS.append(
 # ----------------------------------------------------------------- findings
 
 
-def _f_preference():
-    spec = [{"tag": "Element", "name": "a", "ns": None}, {"tag": "Attribute", "name": "a", "ns": None},
-            {"tag": "Element", "name": "a_Attribute", "ns": None}]
-    renamed, finals = final_field_names(spec)
-    return len(set(finals)) < len(finals), f"renamed={renamed} fields={finals}"
-
-
-def _f_original():
-    c = GeneratorConfig()
-    c.conventions.field_name.case = NameCase.ORIGINAL
-    out = _filters(c).field_name("a⁰", "c")
-    return not out.isidentifier(), f"field_name('a⁰') under originalCase = {out!r}"
-
-
 def _f_prefix_collision():
     spec = [{"tag": "Enumeration", "name": "1", "ns": None}, {"tag": "Enumeration", "name": "value_1", "ns": None}]
     _, finals = final_field_names(spec)
@@ -1518,45 +1488,8 @@ def _f_prefix_collision():
     return len(set(finals)) < 2 and len(set(finals2)) < 2, f"enum members {finals}, fields {finals2}"
 
 
-def _f_recursion():
-    c = GeneratorConfig()
-    c.conventions.field_name.safe_prefix = "_"
-    try:
-        out = _filters(c).field_name("class", "c")
-    except RecursionError:
-        return True, "field_name('class') with safe_prefix='_' raised RecursionError"
-    except Exception as e:  # noqa: BLE001
-        return False, f"raised {type(e).__name__}"
-    return False, f"returned {out!r}"
-
-
-def _f_unnamed():
-    msg = oracle_pipeline({"kind": "xml", "doc": "<r><\u2fe0>1</\u2fe0></r>", "opts": {}})
-    return bool(msg and "ValueError" in msg), str(msg)
-
-
-def _f_empty_key():
-    msg = oracle_pipeline({"kind": "json", "doc": {"": 1}, "opts": {}})
-    return bool(msg and "IndexError" in msg), str(msg)
-
-
-def _f_abstract():
-    a = {"style": "filenames", "classes": [
-        {"qname": "a", "abstract": True, "element": True, "location": "l"},
-        {"qname": "A", "abstract": False, "element": False, "location": "l"},
-        {"qname": "a_abstract", "abstract": False, "element": False, "location": "l"}]}
-    msg = oracle_classes(a)
-    return bool(msg and "both end up" in msg), str(msg)
-
-
 FINDINGS = {
-    "C07-preference-rename-unchecked": _f_preference,
-    "C07-original-case-non-xid": _f_original,
     "C07-safe-prefix-collision": _f_prefix_collision,
-    "C07-safe-prefix-recursion": _f_recursion,
-    "C07-unnamed-char-valueerror": _f_unnamed,
-    "C07-json-empty-key-indexerror": _f_empty_key,
-    "C07-abstract-suffix-unchecked": _f_abstract,
 }
 
 RULE = (
@@ -1567,17 +1500,18 @@ RULE = (
 )
 
 LEVEL_TEXT = (
-    "Lean theorems over all names (all of Unicode, every UEnv/Env) for the naming and renaming decision cores: "
-    "safe_name terminates within 3 calls, never returns a reserved word nor a Python keyword (every hard keyword of the running "
-    "interpreter is a stop word: table theorem re-checked each run) and yields an identifier for the seven word-splitting cases and "
-    "every well-formed prefix; the slug is invariant under case conversion (why de-duplicating by slug suffices for plain names); "
-    "unique_name/next_qname/next_available_name always terminate with a fresh slug; rename_duplicate_attributes leaves pairwise "
-    "different slugs when no two-member group exists; counterexample theorems for originalCase, preference renaming, safe-prefix "
-    "collisions, abstract suffix. The model is tied to /repo by a differential check (16 ops), and the property itself is evaluated "
-    "end to end on the REAL generator (transformer.process, all handlers, CodeWriter, validate_imports; stand-in only for the Jinja2 "
-    "templates): every written file compiles, has no duplicate members/classes, the package imports, every class yields binding "
-    "metadata (XmlContext.build_recursive) and an instance, for hostile XSD (one and two namespaces) / JSON / XML sources under "
-    "structure styles x compound/wrapper/unnest x frozen/slots x relative imports x generic collections x naming cases."
+    "Lean theorems over all names (all of Unicode, every UEnv/Env) for the naming and renaming decision cores: for every "
+    "convention Filters accepts (first alphanumeric of the safe prefix is a letter; anything else is rejected with a CodegenError) "
+    "and all eight naming cases, safe_name terminates within 11 calls (3 for the defaults), never returns a reserved word nor a "
+    "Python keyword (every hard keyword of the running interpreter is a stop word: table theorem re-checked each run) and always "
+    "yields an identifier; the slug is invariant under case conversion; unique_name/next_qname/next_available_name always terminate "
+    "with a fresh slug; rename_duplicate_attributes leaves pairwise different slugs for EVERY attr list (full strength); "
+    "add_abstract_suffix records only fresh keys; counterexample theorems remain for safe-prefix collisions. The model is tied to "
+    "/repo by a differential check (18 ops), and the property itself is evaluated end to end on the REAL generator "
+    "(transformer.process, all handlers, CodeWriter, validate_imports; stand-in only for the Jinja2 templates): every written file "
+    "compiles, has no duplicate members/classes, the package imports, every class yields binding metadata "
+    "(XmlContext.build_recursive) and an instance, for hostile XSD (one and two namespaces) / JSON / XML sources under structure "
+    "styles x compound/wrapper/unnest x frozen/slots x relative imports x generic collections x naming cases."
 )
 LEVEL_NOTE = (
     "Partial: only the naming/renaming cores are modelled in Lean; package designation, import resolution, circular-reference "
@@ -1594,5 +1528,5 @@ TRUSTED = [
 ASSUMPTIONS = [
     "Filters run without user substitutions (GeneratorConfig() default); aliases/substitutions are not modelled",
     "Attr names have a non-empty ASCII-alnum part or are empty (Attr.__post_init__'s unicodedata.name fallback is outside the model; the end-to-end oracle exercises it)",
-    "the interpreter's recursion limit is taken as 'never returns' (fuel 64 in the model; every terminating run needs ≤ 12 frames)",
+    "the interpreter's recursion limit is taken as 'never returns' (fuel 64 in the model; every run under an accepted prefix needs ≤ 11 frames, proved)",
 ]
